@@ -54,6 +54,18 @@ func genC20(seed int64, tier string) *Plan {
 		}
 		p.Steps = steps
 	}
+	// transactions that commit the same document more than once, on both sides of the subscription's filter
+	// (own stream of choices)
+	if rt := newRng(seed, 203); true {
+		var steps []Step
+		for _, st := range p.Steps {
+			steps = append(steps, st)
+			if st.K != "fault" && chance(rt, 12) {
+				steps = append(steps, Step{K: "txnsame", A: rt.IntN(4), B: rt.IntN(3), C: rt.IntN(64), D: rt.IntN(64)})
+			}
+		}
+		p.Steps = steps
+	}
 	// a subscriber that leaves before step leaveat-1 (own stream of choices)
 	if rl := newRng(seed, 201); chance(rl, 50) && len(p.Steps) > 2 {
 		p.Cfg["leaveat"] = 1 + rl.IntN(len(p.Steps))
@@ -242,6 +254,69 @@ func runC20(p *Plan, res *Result) {
 			ac := buildCall(Step{K: "call", A: s.A, B: s.B, C: s.C, D: s.D}, w.env)
 			what = ac.Kind
 			callErr, panicked = safeCall(ac, n, &handles{fresh: true})
+		case "txnsame":
+			what = fmt.Sprintf("txnsame(%d,%s)", s.A, []string{"discard", "commit", "commit"}[mod(s.B, 3)])
+			func() {
+				defer func() {
+					if pv := recover(); pv != nil {
+						panicked = fmt.Sprintf("%v @ %s", pv, panicSite())
+					}
+				}()
+				txn, err := n.DB.NewTxn(n.reqCtx(), false)
+				if err != nil {
+					callErr = err
+					return
+				}
+				defer txn.Discard(n.reqCtx())
+				// ages on both sides of the filter (>= c20SubFilterAge)
+				a1, a2 := c20SubFilterAge+1+mod(s.C, 3), c20SubFilterAge-1-mod(s.D, 3)
+				if s.C&4 != 0 {
+					a1, a2 = a2, a1
+				}
+				var qs []string
+				id := ""
+				if s.A == 0 || len(users) == 0 {
+					// create, then update what was created
+					r := txn.ExecRequest(n.reqCtx(), fmt.Sprintf(`mutation { create_User(input: {name: "ts%d", age: %d, points: 1}) { _docID } }`, i, a1))
+					if len(r.GQL.Errors) > 0 {
+						callErr = r.GQL.Errors[0]
+						return
+					}
+					if m, ok := r.GQL.Data.(map[string]any); ok {
+						if rs := rows(m, "create_User"); len(rs) == 1 {
+							id = fmt.Sprint(rs[0]["_docID"])
+						}
+					}
+					if id == "" {
+						callErr = fmt.Errorf("create returned no document")
+						return
+					}
+					qs = append(qs, fmt.Sprintf(`mutation { update_User(docID: %q, input: {age: %d}) { _docID } }`, id, a2))
+				} else {
+					id = fmt.Sprint(users[mod(s.D, len(users))]["_docID"])
+					qs = append(qs, fmt.Sprintf(`mutation { update_User(docID: %q, input: {age: %d}) { _docID } }`, id, a1),
+						fmt.Sprintf(`mutation { update_User(docID: %q, input: {age: %d}) { _docID } }`, id, a2))
+				}
+				if s.A == 3 {
+					qs = append(qs, fmt.Sprintf(`mutation { delete_User(docID: %q) { _docID } }`, id))
+				}
+				for _, q := range qs {
+					r := txn.ExecRequest(n.reqCtx(), q)
+					if len(r.GQL.Errors) > 0 {
+						callErr = r.GQL.Errors[0]
+						return
+					}
+					synctest.Wait()
+					n.mu.Lock()
+					midTxnEvents += len(n.updates)
+					n.mu.Unlock()
+				}
+				if mod(s.B, 3) == 0 {
+					return // discard
+				}
+				callErr = txn.Commit(n.reqCtx())
+				res.Stats["txns_committing_one_document_repeatedly"]++
+			}()
 		case "txn":
 			what = fmt.Sprintf("txn(%d ops,%s)", s.A, []string{"discard", "commit", "commit"}[mod(s.B, 3)])
 			func() {
